@@ -6,5 +6,6 @@ CONSTANTS
   CacheTransparent = FALSE
   SerialsMemoised = TRUE
   ScopeFixed = TRUE
+  TouchInvisible = TRUE
 INVARIANTS C19_FlatStable
 CHECK_DEADLOCK FALSE
